@@ -28,7 +28,9 @@ TECHNIQUE = "1-induction on the netlist of designs built with the round-robin sc
 
 
 def configs(tier):
-    return [{"design": n, "scheduler": "rr"} for n in family.rr_designs()]
+    from contracts import schedfn
+
+    return [{"design": n, "scheduler": "rr"} for n in family.rr_designs()] + schedfn.configs_rr(tier)
 
 
 def onehot(x):
@@ -53,6 +55,10 @@ def components(conf):
 
 
 def run(cfg, ctx):
+    if cfg.get("kind") == "schedfn_rr":
+        from contracts import schedfn
+
+        return schedfn.run_rr(PROPERTY, cfg, ctx)
     spec = family.with_scheduler(family.rr_designs()[cfg["design"]], "rr")
     b = Built(spec, capture=(OneHotRoundRobin,))
     o = Oracle(b)
@@ -152,4 +158,6 @@ def _patch_arbiter():
 CANARIES = [
     {"name": "grant_wasted_on_unrunnable", "cfg": {"design": "rr_validators", "scheduler": "rr"}, "patch": _patch_rr, "expect": r"one_runs_when_some_enabled|step\.wf|wait_bounded"},
     {"name": "arbiter_unfair", "cfg": {"design": "rr_3_share_method", "scheduler": "rr"}, "patch": _patch_arbiter, "expect": r"step\.wf|wait_bounded"},
+    {"name": "arbiter_unfair_seen_by_function_contract", "cfg": {"kind": "schedfn_rr", "n": 4}, "patch": _patch_arbiter, "expect": r"rr_scheduler\[n=4\]\.(step\.wf|.*wait_bounded)"},
+    {"name": "grant_wasted_seen_by_function_contract", "cfg": {"kind": "schedfn_rr", "n": 3}, "patch": _patch_rr, "expect": r"rr_scheduler\[n=3\]\.(one_runs_when_some_request|step\.wf|.*wait_bounded)"},
 ]
